@@ -1,6 +1,6 @@
 import Ptk.Proto
 import Ptk.Gen.C10Display
-import Ptk.Model.C10
+import Ptk.Model.C10Diff
 open Ptk Ptk.Py Ptk.Proto Ptk.C10
 
 /-- style environment sent by the harness (parameters of the model that belong to C19's domain):
@@ -46,27 +46,100 @@ def encCell (c : Cell) : String := s!"{encStr c.char} {encStr c.style} {c.width}
 
 def encSegs (l : List Seg) : String :=
   let tag : Origin → String
-    | .gen => "r" | .content => "w" | .zwe => "r"
+    | .gen => "r" | .genw => "w" | .content => "w" | .zwe => "r"
   encList (fun (o, t) => tag o ++ " " ++ encStr t) l
 
-def handle (e : Env) : String → P (Env × String)
+structure DState where
+  env : Env := {}
+  buf : Buf := []
+  zwe : Zwe := []
+  height : Nat := 0
+  prev : Option Screen := none
+  x : Nat := 0
+  y : Nat := 0
+  last : Option Text := none
+  vt : VtSt := none
+  prevWidth : Nat := 0
+
+/-- `_CHAR_CACHE[" ", Transparent]` -/
+def D0 : Cell := mkCell M WC [' '] "[transparent]".toList
+
+def E : Emit := {
+  hide := Gen.C10.hideCursor, show_ := Gen.C10.showCursor, reset := Gen.C10.resetAttrs,
+  eraseDown := Gen.C10.eraseDown, eraseEol := Gen.C10.eraseEol,
+  disableWrap := Gen.C10.disableAutowrap, enableWrap := Gen.C10.enableAutowrap,
+  up1 := Gen.C10.cursorUp1, fwd1 := Gen.C10.cursorFwd1, back1 := Gen.C10.cursorBack1,
+  upPre := Gen.C10.cursorUpPre, upSuf := Gen.C10.cursorUpSuf,
+  fwdPre := Gen.C10.cursorFwdPre, fwdSuf := Gen.C10.cursorFwdSuf,
+  backPre := Gen.C10.cursorBackPre, backSuf := Gen.C10.cursorBackSuf }
+
+def posLt (a b : Pos) : Bool := a.1 < b.1 || (a.1 == b.1 && a.2 < b.2)
+
+def dumpCells (b : Buf) (d : Cell) : String :=
+  let keys := (b.map (·.1)).eraseDups
+  let keys := (keys.toArray.qsort posLt).toList
+  let cells := keys.filterMap fun p =>
+    let c := bufGet b d p
+    if c = d then none else some (p, c)
+  encList (fun (p, c) => s!"{p.1} {p.2} {encCell c}") cells
+
+def dumpZwe (z : Zwe) : String :=
+  let keys := (z.map (·.1)).eraseDups
+  let keys := (keys.toArray.qsort posLt).toList
+  encList (fun p => s!"{p.1} {p.2} {encStr ((zweFind? z p).getD [])}") keys
+
+def encPieces (l : List Seg) : String :=
+  let tag : Origin → String
+    | .gen => "r" | .genw => "w" | .content => "w" | .zwe => "r"
+  encList (fun (o, t) => tag o ++ " " ++ encStr t) (l.filter fun (_, t) => !t.isEmpty)
+
+def handle (st : DState) : String → P (DState × String)
   | "env" => do
-    let st ← pList (do let s ← pStr; let a ← pNat; let h ← pBool; pure (s, a, h))
+    let sty ← pList (do let s ← pStr; let a ← pNat; let h ← pBool; pure (s, a, h))
     let sg ← pList (do let a ← pNat; let t ← pStr; pure (a, t))
-    pure ({ styles := st, sgrs := sg }, "ok")
+    pure ({ st with env := { styles := sty, sgrs := sg } }, "ok")
   | "cell" => do
-    let s ← pStr; let st ← pStr
-    pure (e, encCell (mkCell M WC s st))
+    let s ← pStr; let sty ← pStr
+    pure (st, encCell (mkCell M WC s sty))
   | "write" => do
     let s ← pStr
-    pure (e, encStr (safeWrite s))
+    pure (st, encStr (safeWrite s))
   | "print" => do
     let frs ← pList pFrag
+    let e := st.env
     let segs := printFrags e.attrsOf e.sgr Gen.C10.resetAttrs Gen.C10.enableAutowrap frs
-    pure (e, encStr (segsText segs) ++ " " ++ encSegs segs)
+    pure (st, encStr (segsText segs) ++ " " ++ encSegs segs)
+  | "newscreen" => pure ({ st with buf := [], zwe := [], height := 0 }, "ok")
+  | "resetr" => pure ({ st with prev := none, x := 0, y := 0, last := none, vt := none, prevWidth := 0 }, "ok")
+  | "copy" => do
+    let xpos ← pInt; let ypos ← pInt; let width ← pInt; let height ← pInt
+    let wrap ← pBool; let hscroll ← pNat; let vscroll ← pNat; let vscroll2 ← pNat
+    let hasPre ← pBool
+    let pre0 ← pList pFrag; let preN ← pList pFrag
+    let lines ← pList (pList pFrag)
+    let cfg : CopyCfg := {
+      m := M, wc := WC, dflt := D0, xpos := xpos, ypos := ypos, width := width, height := height,
+      wrap := wrap, hscroll := hscroll,
+      pre := if hasPre then some (fun _ wc => if wc = 0 then pre0 else preN) else none }
+    let r := copyBody cfg st.buf st.zwe lines vscroll vscroll2
+    let h := max st.height (ypos + height).toNat
+    pure ({ st with buf := r.buf, zwe := r.zwe, height := h },
+      s!"{h} {dumpCells r.buf D0} {dumpZwe r.zwe}")
+  | "diff" => do
+    let isDone ← pBool; let fullScreen ← pBool; let width ← pNat; let height ← pNat
+    let cx ← pNat; let cy ← pNat; let showCursor ← pBool
+    let e := st.env
+    let scr : Screen := { buf := st.buf, zwe := st.zwe, dflt := D0, height := st.height,
+                          cursor := (cx, cy), showCursor := showCursor }
+    let cfg : DiffCfg := { attrsOf := e.attrsOf, hasStyle := e.hasStyle, width := width, height := height }
+    let r := diff cfg D0 scr st.prev st.x st.y st.last isDone fullScreen st.prevWidth
+    let (vt, segs) := vtSegs E e.sgr st.vt r.evs.reverse
+    let lastS := match r.last with | none => "N" | some l => encStr l
+    pure ({ st with prev := some scr, x := r.x, y := r.y, last := r.last, vt := vt, prevWidth := width },
+      s!"{r.x} {r.y} {lastS} {encStr (segsText segs)} {encPieces segs}")
   | _ => failure
 
-def stepLine (e : Env) (toks : List String) : Env × String :=
+def stepLine (e : DState) (toks : List String) : DState × String :=
   match toks with
   | [] => (e, "bad-op")
   | op :: rest =>
